@@ -830,7 +830,8 @@ pub fn gen_gs3(c: &mut Chooser, player_counts: &[usize], team_counts: &[usize]) 
         extra,
         players,
         teams,
-        challenge: "11223344".into(),
+        // the challenge is part of the server's state too: any i32 in decimal (the longest texts are the negative ten-digit ones)
+        challenge: pick(c, &["11223344", "0", "-1", "2147483647", "-2147483648", "-1234567890"]).to_string(),
     }
 }
 
